@@ -48,7 +48,6 @@ VERIF_FAIL = [
     r"index out of bounds", r"possible .* overflow", r"failed precondition",
     r"cannot show invariant", r"constructed value may fail", r"type invariant",
     r"value may be out of range", r"possible truncation", r"assert_by", r"assertion not satisfied",
-    r"refinement", r"not satisfied",
 ]
 RESOURCE = [r"[Rr]esource limit", r"rlimit", r"timed? ?out", r"solver .*(crash|unknown)", r"canceled"]
 
@@ -130,7 +129,7 @@ def classify(unit, text, res):
         if any(re.search(p, msg) for p in RESOURCE):
             undecided.append("resource: " + msg)
             continue
-        if not any(re.search(p, msg) for p in VERIF_FAIL):
+        if d.get("code") is not None or not any(re.search(p, msg) for p in VERIF_FAIL):
             undecided.append("verus/rustc error: %s @ %s" % (msg, ["%s:%s" % (s.get("file_name"), s.get("line_start")) for s in prim][:1]))
             continue
         label = None
